@@ -85,7 +85,7 @@ def resolve_gradient(node: CSSProperty, config: Config):
         if isinstance(v, FunctionCall) and v.name == gradient_name:
             gradient_fn = v
 
-    if gradient_fn or node.name == gradient_name:
+    if gradient_fn or (node.name == gradient_name and not config.context):
         gradient_value = gradient_fn.arguments if gradient_fn else [CSSValue([tokens.Field('', 0)])]
         gradient_fn = FunctionCall('linear-gradient', gradient_value)
 
